@@ -288,6 +288,15 @@ def tables() -> dict:
     t["variantRegisteredAfterBuild"] = after_build
     # parse_timezone: does the pattern have to match the WHOLE string (fullmatch) or may `$` stop before a trailing newline?
     t["substAnnotatedRecursive"] = _subst_annotated_recursive()
+    # builder._add_pack_method_lines: the on-demand per-format method hands an instance of another class over
+    # to a method compiled for that class (`if self.__class__ is not _method_owner:` + lazy compilation)
+    bsrc = _src("mashumaro/core/meta/code/builder.py")
+    t["packOwnerGuard"] = False
+    for node in ast.walk(ast.parse(bsrc)):
+        if isinstance(node, ast.FunctionDef) and node.name == "_add_pack_method_lines":
+            for w in ast.walk(node):
+                if isinstance(w, ast.With) and "self.__class__ is not _method_owner" in ast.unparse(w.items[0].context_expr):
+                    t["packOwnerGuard"] = any("_add_pack_method_lines_lazy" in ast.unparse(b) for b in w.body)
     t["tzParseFullMatch"] = False
     for node in ast.walk(ast.parse(_src("mashumaro/core/helpers.py"))):
         if isinstance(node, ast.FunctionDef) and node.name == "parse_timezone":
@@ -355,6 +364,8 @@ def render(t: dict) -> str:
     L.append("def tzParseFullMatch : Bool := " + ("true" if t["tzParseFullMatch"] else "false"))
     L.append("/-- helpers.substitute_type_params: does the Annotated branch substitute inside the wrapped type (recursive call)? -/")
     L.append("def substAnnotatedRecursive : Bool := " + ("true" if t["substAnnotatedRecursive"] else "false"))
+    L.append("/-- builder._add_pack_method_lines: an instance of another class is packed by a method compiled for its own class -/")
+    L.append("def packOwnerGuard : Bool := " + ("true" if t["packOwnerGuard"] else "false"))
     L.append("")
     L.append("end Mashu.Generated")
     return "\n".join(L) + "\n"
